@@ -1,18 +1,19 @@
 // C18 correspondence harness: builds the REAL AsciiChar / Sequence / Alternate / Star / Not
 // values recursively from an expression tree and runs them on the case's buffer.
 //
-//   case   : <tag> <expr> <hexbuf> <pos>
+//   case   : <tag> <expr> <hexbuf> <pos> [<hexbuf> <pos>]*   (several steps: the SAME parser object
+//            is applied to each buffer/cursor in turn; step outputs are joined by " ; ")
 //            expr (prefix, no blanks):  .XY seq   |XY alt   *X star   !X not
 //                                       U any-ascii   =hh byte==hh   ~hh byte!=hh   [llhh ll<=byte<=hh
 //                                       ^G raw operand with guard G (see RawChar below)
 //   output : ok <tree> <cursor> | err <kind> <cursor> | skip
 //            tree: (c hh s e) (p A B s e) (l A s e) (r A s e) (s A1 .. An s e) (u s e)
 //
-// `Dyn` is the type-erased parser: it implements ParsleyParser with the uniform value type
-// LocatedVal<Tree>, and for a combinator node it constructs the crate's generic combinator over
-// two `Dyn` children (`Sequence::new(&mut a, &mut b)` ...), calls its `parse`, and re-wraps the
-// typed result (tuple / Alt / Vec / ()) as a `Tree` carrying the spans the combinator reported.
-// The wrapper itself never touches the cursor.
+// `Node` is the type-erased parser: it implements ParsleyParser with the uniform value type
+// LocatedVal<Tree>; a combinator node HOLDS the crate's generic combinator over two `Node`
+// children (`Sequence::new(&mut a, &mut b)` ...), built once per case, calls its `parse`, and
+// re-wraps the typed result (tuple / Alt / Vec / ()) as a `Tree` carrying the spans the combinator
+// reported.  The wrapper itself never touches the cursor.
 use parsley_rust::pcore::parsebuffer::{
     LocatedVal, ParseBuffer, ParseBufferT, ParseResult, ParsleyParser,
 };
@@ -81,45 +82,43 @@ impl ParsleyParser for RawChar {
     }
 }
 
-struct Dyn<'e> {
-    e: &'e Expr,
+// The parser OBJECTS are built ONCE per case (`Arena::build`) and then reused: a combinator under
+// a Star is the same object in every iteration, and a multi-step case applies the same top-level
+// object to every (buffer, cursor) of the case in turn.  The crate's combinators borrow their
+// operands (`&'a mut P`), so the tree is allocated node by node on the heap, children first, and
+// the borrows are handed out with the lifetime of the arena (raw pointers; all nodes are freed,
+// parents first, when the arena is dropped at the end of the case).  State that a combinator
+// object keeps between calls is therefore observable, exactly as for a caller that builds
+// `Star::new(&mut alt)` once.
+enum Node {
+    Chr(AsciiChar),
+    Raw(RawChar),
+    Seq(Sequence<'static, Node, Node>),
+    Alt(Alternate<'static, Node, Node>),
+    Star(Star<'static, Node>),
+    Not(Not<'static, Node>),
 }
 
-impl<'e> ParsleyParser for Dyn<'e> {
+impl ParsleyParser for Node {
     type T = LV;
 
     fn parse(&mut self, buf: &mut dyn ParseBufferT) -> ParseResult<LV> {
-        match self.e {
-            Expr::Chr(g) => {
-                let mut p = match g.clone() {
-                    Guard::Any => AsciiChar::new(),
-                    Guard::Eq(b) => AsciiChar::new_guarded(Box::new(move |c: &char| *c == b as char)),
-                    Guard::Ne(b) => AsciiChar::new_guarded(Box::new(move |c: &char| *c != b as char)),
-                    Guard::Range(lo, hi) => AsciiChar::new_guarded(Box::new(move |c: &char| {
-                        lo as char <= *c && *c <= hi as char
-                    })),
-                };
+        match self {
+            Node::Chr(p) => {
                 let v = p.parse(buf)?;
                 Ok(LocatedVal::new(Tree::Ch(*v.val()), v.start(), v.end()))
             },
-            Expr::Raw(g) => {
-                let mut p = RawChar { g: g.clone() };
+            Node::Raw(p) => {
                 let v = p.parse(buf)?;
                 Ok(LocatedVal::new(Tree::Ch(*v.val()), v.start(), v.end()))
             },
-            Expr::Seq(a, b) => {
-                let mut pa = Dyn { e: a };
-                let mut pb = Dyn { e: b };
-                let mut c = Sequence::new(&mut pa, &mut pb);
+            Node::Seq(c) => {
                 let v = c.parse(buf)?;
                 let (s, e) = (v.start(), v.end());
                 let (x, y) = v.unwrap();
                 Ok(LocatedVal::new(Tree::Pair(Box::new(x), Box::new(y)), s, e))
             },
-            Expr::Alt(a, b) => {
-                let mut pa = Dyn { e: a };
-                let mut pb = Dyn { e: b };
-                let mut c = Alternate::new(&mut pa, &mut pb);
+            Node::Alt(c) => {
                 let v = c.parse(buf)?;
                 let (s, e) = (v.start(), v.end());
                 let t = match v.unwrap() {
@@ -128,19 +127,70 @@ impl<'e> ParsleyParser for Dyn<'e> {
                 };
                 Ok(LocatedVal::new(t, s, e))
             },
-            Expr::Star(a) => {
-                let mut pa = Dyn { e: a };
-                let mut c = Star::new(&mut pa);
+            Node::Star(c) => {
                 let v = c.parse(buf)?;
                 let (s, e) = (v.start(), v.end());
                 Ok(LocatedVal::new(Tree::List(v.unwrap()), s, e))
             },
-            Expr::Not(a) => {
-                let mut pa = Dyn { e: a };
-                let mut c = Not::new(&mut pa);
+            Node::Not(c) => {
                 let v = c.parse(buf)?;
                 Ok(LocatedVal::new(Tree::Unit, v.start(), v.end()))
             },
+        }
+    }
+}
+
+struct Arena {
+    nodes: Vec<*mut Node>,
+}
+
+impl Arena {
+    fn alloc(&mut self, n: Node) -> &'static mut Node {
+        let p = Box::into_raw(Box::new(n));
+        self.nodes.push(p);
+        // valid until the arena is dropped; every node is referenced by exactly one parent
+        unsafe { &mut *p }
+    }
+
+    fn build(&mut self, e: &Expr) -> &'static mut Node {
+        let n = match e {
+            Expr::Chr(g) => Node::Chr(match g.clone() {
+                Guard::Any => AsciiChar::new(),
+                Guard::Eq(b) => AsciiChar::new_guarded(Box::new(move |c: &char| *c == b as char)),
+                Guard::Ne(b) => AsciiChar::new_guarded(Box::new(move |c: &char| *c != b as char)),
+                Guard::Range(lo, hi) => AsciiChar::new_guarded(Box::new(move |c: &char| {
+                    lo as char <= *c && *c <= hi as char
+                })),
+            }),
+            Expr::Raw(g) => Node::Raw(RawChar { g: g.clone() }),
+            Expr::Seq(a, b) => {
+                let pa = self.build(a);
+                let pb = self.build(b);
+                Node::Seq(Sequence::new(pa, pb))
+            },
+            Expr::Alt(a, b) => {
+                let pa = self.build(a);
+                let pb = self.build(b);
+                Node::Alt(Alternate::new(pa, pb))
+            },
+            Expr::Star(a) => {
+                let pa = self.build(a);
+                Node::Star(Star::new(pa))
+            },
+            Expr::Not(a) => {
+                let pa = self.build(a);
+                Node::Not(Not::new(pa))
+            },
+        };
+        self.alloc(n)
+    }
+}
+
+impl Drop for Arena {
+    fn drop(&mut self) {
+        // parents were allocated after their children: free them first
+        while let Some(p) = self.nodes.pop() {
+            unsafe { drop(Box::from_raw(p)) }
         }
     }
 }
@@ -246,9 +296,29 @@ fn show(t: &LV, out: &mut String) {
     }
 }
 
+// One step: the (reused) parser object on a fresh buffer at the given cursor.
+fn step(p: &mut Node, hex: &str, pos: &str) -> Option<String> {
+    let buf = unhex(hex);
+    let pos: usize = pos.parse().ok()?;
+    let mut pb = ParseBuffer::new(buf);
+    if pb.set_cursor(pos).is_err() {
+        return None
+    }
+    Some(match p.parse(&mut pb) {
+        Ok(v) => {
+            let mut s = String::from("ok ");
+            show(&v, &mut s);
+            s.push_str(&format!(" {}", pb.get_cursor()));
+            s
+        },
+        Err(err) => format!("err {} {}", errk(err.val()), pb.get_cursor()),
+    })
+}
+
 pub fn run(line: &str) -> String {
     let w: Vec<&str> = line.split_whitespace().collect();
-    if w.len() != 4 {
+    // <tag> <expr> (<hexbuf> <pos>)+ : one parser object, applied to every (buffer, cursor) in turn
+    if w.len() < 4 || w.len() % 2 != 0 {
         return "bad-case".to_string()
     }
     let mut i = 0;
@@ -260,25 +330,16 @@ pub fn run(line: &str) -> String {
     if !star_bodies_consume(&e) {
         return "skip".to_string()
     }
-    let buf = unhex(w[2]);
-    let pos: usize = match w[3].parse() {
-        Ok(p) => p,
-        Err(_) => return "bad-case".to_string(),
-    };
-    let mut pb = ParseBuffer::new(buf);
-    if pb.set_cursor(pos).is_err() {
-        return "bad-case".to_string()
+    let mut arena = Arena { nodes: Vec::new() };
+    let p = arena.build(&e);
+    let mut outs: Vec<String> = Vec::new();
+    for k in (2 .. w.len()).step_by(2) {
+        match step(p, w[k], w[k + 1]) {
+            Some(s) => outs.push(s),
+            None => return "bad-case".to_string(),
+        }
     }
-    let mut p = Dyn { e: &e };
-    match p.parse(&mut pb) {
-        Ok(v) => {
-            let mut s = String::from("ok ");
-            show(&v, &mut s);
-            s.push_str(&format!(" {}", pb.get_cursor()));
-            s
-        },
-        Err(err) => format!("err {} {}", errk(err.val()), pb.get_cursor()),
-    }
+    outs.join(" ; ")
 }
 
 fn main() {
